@@ -515,8 +515,9 @@ func (c *check) txQueries() {
 
 // checkNode runs the whole request grid on one history node for every L1-head position.
 // reduce=true (quick tier): the requests whose answer cannot mention the L1 head (state reads, state update,
-// transaction bodies, counts - by number / hash / latest) are issued for the positions "none" and "last" only;
-// everything that carries a finality status or goes through `l1_accepted` is issued for every position.
+// transaction bodies, counts - by number / hash / latest) are issued for the position "none" only; everything
+// that carries a finality status or goes through `l1_accepted` is issued for every position. The thorough tier
+// issues the full product.
 func checkNode(r *ev.Run, label, backend string, newState bool, nc *nodeCase, db *memory.Database, reduce bool) {
 	d := db.Copy() // private: SetL1Head writes
 	bc := chain.NewNode(d, newState)
@@ -537,7 +538,7 @@ func checkNode(r *ev.Run, label, backend string, newState bool, nc *nodeCase, db
 			}
 		}
 		c.l1 = l1
-		c.full = !reduce || l1 == -1 || l1 == n
+		c.full = !reduce || l1 == -1
 		if panicked, msg := ev.Guard(c.run); panicked {
 			r.Violate("panic-while-serving-read-requests"+backend, obj{"config": label, "history": nc.path, "l1_head": l1, "panic": msg})
 		}
@@ -554,7 +555,7 @@ func fromHist(n *hist.Node) *nodeCase {
 
 func TestCheck(t *testing.T) {
 	r := ev.Start("C08", "exploration")
-	r.SetBudget(ev.Pick(r, 160, 1700))
+	r.SetBudget(ev.Pick(r, 170, 1700))
 	type run struct {
 		cfg   vcfg
 		depth int
@@ -617,7 +618,7 @@ func TestCheck(t *testing.T) {
 	r.Set("distinct_nontrivial", r.Get("nodes_checked"))
 	red := "full product"
 	if reduce {
-		red = "quick-tier reduction: requests without finality status and not via l1_accepted are issued for L1 positions {none, head+1} only"
+		red = "quick-tier reduction: requests without finality status and not via l1_accepted are issued for L1 position {none} only"
 	}
 	r.Set("rule", "every target of every {store(block alphabet), revertHead} transition ("+strings.Join(rule, "; ")+") + scripted all-tx-kinds chain with revert/re-store; "+
 		"x L1 head in {none, 0..head, head+1} x block ids {0..head+1, stored/reverted/unknown hash, latest, l1_accepted} x 16 read methods x "+
